@@ -373,6 +373,20 @@ class _Steps(enum.IntEnum):
     FOUR = 4
 
 
+_USER_CLOCK = []
+
+
+def _user_tempo_clock(base):
+    if not _USER_CLOCK:
+        class BpmClock(base):
+            """A user's subclass: a convenience property, nothing overridden."""
+            @property
+            def bpm(self):
+                return self.tempo * 60
+        _USER_CLOCK.append(BpmClock)
+    return _USER_CLOCK[0]
+
+
 def _as_other_number(d, k):
     if isinstance(d, bool) or not isinstance(d, (int, float)):
         return d
@@ -445,8 +459,12 @@ class Run:
 
         def root():
             run.T0 = run.now_secs()
-            for c in run.prog['clocks']:
-                run.clocks.append(run.clk.TempoClock(c['tempo']))
+            for ci_, c in enumerate(run.prog['clocks']):
+                # every second tempo clock is an instance of a user's subclass
+                # (documented way to add conveniences): same behaviour
+                cls_ = _user_tempo_clock(run.clk.TempoClock) if (ci_ + int(run.tag or 0)) % 2 \
+                    else run.clk.TempoClock
+                run.clocks.append(cls_(c['tempo']))
                 # independent model of the clock's affine beats/seconds map:
                 # [base seconds, base beats, tempo]; re-based by the harness at
                 # every tempo / beats statement, at the EXPECTED logical time of
